@@ -17,7 +17,8 @@ Clauses(e, lrn, lf, ph, st) ==
   \cup If(~e.waiting /\ ~lf /\ ~e.free /\ ~(e.head = lrn /\ ~e.stateErr /\ e.finished /\ e.syncWait = "nil"), "C07_store_reaches_every_learned_target_State_finished_SyncWait_returns")
   \cup If(e.e = "serve" /\ e.kind \in {"error", "empty", "nonadjacent"} /\ e.served /\ ~e.stateErr, "C07_getter_error_is_reported_by_State")
   \cup If(e.head < ph, "C07_nothing_partial_is_lost")
-  \cup If(~e.waiting /\ e.head < st, "C07_nothing_partial_is_lost")          \* every header the getter served is in the store once the attempt is over
+  \cup If(~e.waiting /\ ~e.rt /\ e.head < st, "C07_nothing_partial_is_lost")  \* every header the getter served is in the store once the attempt is over
+                                                                              \* (not on real threads: "the attempt is over" is not observable there)
   \cup If(e.e = "collect" /\ e.dupNil > 1, "C03_duplicate_of_an_accepted_header_is_refused")
   \cup If(e.e = "collect" /\ e.res = "blocked", "C03_delivery_terminates")
 Init == l = 1 /\ learned = 1 /\ lastFault = FALSE /\ prevHead = 1 /\ servedTo = 1 /\ prevFrom = 0
